@@ -389,6 +389,11 @@ impl DebugInformation {
                         // line rows at this line as a breakpoint candidate
                         let mut ahead_idx = i + 1;
                         loop {
+                            // the candidate is already a line row with PE, nothing to look for
+                            if next_line_row.prolog_end() {
+                                break;
+                            }
+
                             let Some(&ahead_line_idx) = file_lines.get(ahead_idx) else {
                                 break;
                             };
